@@ -968,6 +968,12 @@ func inlineOne(fset *token.FileSet, site *inlineSite, read func(string) []byte) 
 	call := site.call
 	sig := site.callee.Type().(*types.Signature)
 
+	// --- expression helpers: a function whose body is one "return <expr>" called with
+	// arguments that have no effects is replaced by that expression wherever the call stands
+	// (predicates such as hasTrailingComma(data) in an if condition)
+	if ed, ok := inlineExpr(fset, site, r); ok {
+		return ed, ""
+	}
 	// --- the statement the call sits in
 	if len(site.path) < 2 {
 		return nil, "call is not a statement"
@@ -996,6 +1002,16 @@ func inlineOne(fset *token.FileSet, site *inlineSite, read func(string) []byte) 
 		stmt, r.mode = st, 2
 	case *ast.ExprStmt:
 		stmt, r.mode = st, 3
+	case *ast.IfStmt:
+		// if f(args) { … }: first give the condition a name - if cond_inl := f(args); cond_inl { … } -
+		// the next round substitutes the helper into that init statement
+		if st.Init == nil && ast.Unparen(st.Cond) == ast.Expr(call) && sig.Results().Len() == 1 {
+			callerName := fset.PositionFor(site.callerDecl.Pos(), false).Filename
+			lo, hi := r.coff(st.Cond.Pos()), r.coff(st.Cond.End())
+			txt := "cond_inl := " + string(r.csrc[lo:hi]) + "; cond_inl"
+			return map[string][]srcEdit{callerName: {{lo, hi, txt}}}, "~normalised"
+		}
+		return nil, "call is inside an if header"
 	default:
 		return nil, fmt.Sprintf("call is inside a %T", parent)
 	}
@@ -1804,6 +1820,15 @@ func deextract(repo string, first []*packages.Package, fset *token.FileSet, load
 				continue
 			}
 			ed, why := inlineOne(fset, s, read)
+			if why == "~normalised" {
+				for f, es := range ed {
+					fileEdits[f] = append(fileEdits[f], es...)
+				}
+				touched = append(touched, s.callerDecl)
+				touchedCallee = append(touchedCallee, s.decl)
+				progress = true
+				continue
+			}
 			if why != "" {
 				refused[name] = true
 				notes = append(notes, fmt.Sprintf("helper %s (not in the census, one call site in %s) left as written: %s", name, funcFullName(pkgFunc(s)), why))
@@ -1865,4 +1890,128 @@ func pkgFunc(s *inlineSite) *types.Func {
 		return fn
 	}
 	return s.callee
+}
+
+// inlineExpr: pure expression substitution (see inlineOne).
+func inlineExpr(fset *token.FileSet, site *inlineSite, r *inliner) (map[string][]srcEdit, bool) {
+	info := site.pkg.TypesInfo
+	pk := site.pkg
+	body := site.decl.Body.List
+	if len(body) != 1 {
+		return nil, false
+	}
+	ret, ok := body[0].(*ast.ReturnStmt)
+	if !ok || len(ret.Results) != 1 {
+		return nil, false
+	}
+	sig := site.callee.Type().(*types.Signature)
+	if sig.Recv() != nil || sig.Variadic() || len(site.call.Args) != sig.Params().Len() {
+		return nil, false
+	}
+	hasLit := false
+	ast.Inspect(ret, func(n ast.Node) bool {
+		if _, ok := n.(*ast.FuncLit); ok {
+			hasLit = true
+		}
+		return true
+	})
+	if hasLit {
+		return nil, false
+	}
+	// arguments: no effects, and of exactly the parameter's type (no implicit conversion to drop)
+	argText := map[types.Object]string{}
+	pi := 0
+	for _, fl := range site.decl.Type.Params.List {
+		for _, nm := range fl.Names {
+			a := site.call.Args[pi]
+			pi++
+			if hasCallOnly(a) {
+				return nil, false
+			}
+			tv, ok := info.Types[a]
+			o := info.Defs[nm]
+			if !ok || o == nil || tv.Type == nil || !types.Identical(tv.Type, o.Type()) {
+				return nil, false
+			}
+			argText[o] = "(" + string(r.csrc[r.coff(a.Pos()):r.coff(a.End())]) + ")"
+		}
+		if len(fl.Names) == 0 {
+			return nil, false
+		}
+	}
+	// free identifiers resolve alike at the call site
+	callerScope := pk.Types.Scope().Innermost(site.call.Pos())
+	if callerScope == nil {
+		return nil, false
+	}
+	okFree := true
+	var edits []srcEdit
+	ast.Inspect(ret.Results[0], func(n ast.Node) bool {
+		id, ok := n.(*ast.Ident)
+		if !ok {
+			return true
+		}
+		o := info.Uses[id]
+		if o == nil {
+			return true
+		}
+		if t, ok := argText[o]; ok {
+			edits = append(edits, srcEdit{r.off(id.Pos()), r.off(id.End()), t})
+			return true
+		}
+		if v, isVar := o.(*types.Var); isVar && v.IsField() {
+			return true
+		}
+		if o.Parent() == nil {
+			return true
+		}
+		if pn, isPkg := o.(*types.PkgName); isPkg {
+			_, found := callerScope.LookupParent(id.Name, site.call.Pos())
+			if fpn, ok := found.(*types.PkgName); !ok || fpn.Imported().Path() != pn.Imported().Path() {
+				okFree = false
+			}
+			return true
+		}
+		if o.Parent() == pk.Types.Scope() || o.Parent() == types.Universe {
+			if _, found := callerScope.LookupParent(id.Name, site.call.Pos()); found != o {
+				okFree = false
+			}
+			return true
+		}
+		okFree = false // a local of the helper: there are none in a single return
+		return true
+	})
+	if !okFree {
+		return nil, false
+	}
+	calleeName := fset.PositionFor(site.decl.Pos(), false).Filename
+	callerName := fset.PositionFor(site.callerDecl.Pos(), false).Filename
+	_ = calleeName
+	txt := "(" + renderRange(r.src, r.off(ret.Results[0].Pos()), r.off(ret.Results[0].End()), edits) + ")"
+	lo, hi := r.coff(site.call.Pos()), r.coff(site.call.End())
+	return map[string][]srcEdit{callerName: {{lo, hi, txt}}}, true
+}
+
+// hasCallOnly: the expression contains a call (or a receive / function literal) - anything
+// whose repeated or reordered evaluation could be observed.
+func hasCallOnly(e ast.Expr) bool {
+	found := false
+	ast.Inspect(e, func(n ast.Node) bool {
+		switch x := n.(type) {
+		case *ast.CallExpr:
+			// conversions and len/cap are harmless
+			if id, ok := x.Fun.(*ast.Ident); ok && (id.Name == "len" || id.Name == "cap") {
+				return true
+			}
+			found = true
+		case *ast.FuncLit:
+			found = true
+		case *ast.UnaryExpr:
+			if x.Op == token.ARROW {
+				found = true
+			}
+		}
+		return !found
+	})
+	return found
 }
